@@ -92,31 +92,32 @@ func (r *Raw) Collect() []*Decoded {
 // ---------- the data-transfer scenario against the raw peer ----------
 
 type RawCfg struct {
-	V6         bool
-	MTU        int
-	Active     bool // stack connects (else the peer does)
-	PeerMSS    int  // -1 = no MSS option
-	PeerWS     int  // -1 = no window-scale option
-	PeerTS     bool
-	PeerSACK   bool
-	PeerISS    uint32
-	StackISS   uint32
-	PeerWnd    int   // initial window advertised by the peer (unscaled field value)
-	Writes     []int // application writes on the stack
-	PeerData   []int // segments the peer sends (sizes)
-	Read       string
-	Devs       string // k ack placement, w window menu, h withhold ack, l lose segment (peer pretends it never arrived), o peer data reorder/overlap/dup, t early timer, a app-first, z zero window then reopen
-	Budget     int
-	Oracles    string // s stream+wire consistency (C01), w window/MSS (C04), r recovery/cwnd (C05), m monitor (C06)
-	Cubic      bool
-	SACK       bool // stack-side SACK enabled
-	RcvBuf     int
-	SndBuf     int    // send buffer of the stack endpoint (0 = default)
-	WriteGapMs int    // the application lets this many virtual ms pass between two writes (0 = writes back to back)
-	RTTms      int    // peer answers this many virtual ms after receiving (0 = immediately)
-	Silent     int    // peer stays silent for this many timeouts at the start of the data phase
-	Close      string // none | shut (stack shuts down its write side after writing)
-	PTB        int    // if >0: an ICMP "fragmentation needed" with this next-hop MTU is offered as a deviation (letter p)
+	V6            bool
+	MTU           int
+	Active        bool // stack connects (else the peer does)
+	PeerMSS       int  // -1 = no MSS option
+	PeerWS        int  // -1 = no window-scale option
+	PeerTS        bool
+	PeerSACK      bool
+	PeerISS       uint32
+	StackISS      uint32
+	PeerWnd       int   // initial window advertised by the peer (unscaled field value)
+	Writes        []int // application writes on the stack
+	PeerData      []int // segments the peer sends (sizes)
+	Read          string
+	Devs          string // k ack placement, w window menu, h withhold ack, l lose segment (peer pretends it never arrived), o peer data reorder/overlap/dup, t early timer, a app-first, z zero window then reopen
+	Budget        int
+	Oracles       string // s stream+wire consistency (C01), w window/MSS (C04), r recovery/cwnd (C05), m monitor (C06)
+	Cubic         bool
+	SACK          bool // stack-side SACK enabled
+	RcvBuf        int
+	SndBuf        int    // send buffer of the stack endpoint (0 = default)
+	WriteGapMs    int    // the application lets this many virtual ms pass between two writes (0 = writes back to back)
+	PeerFixedEdge bool   // the peer's application never reads: its window shrinks as data arrives (fixed right edge at ISS+1+PeerWnd)
+	RTTms         int    // peer answers this many virtual ms after receiving (0 = immediately)
+	Silent        int    // peer stays silent for this many timeouts at the start of the data phase
+	Close         string // none | shut (stack shuts down its write side after writing)
+	PTB           int    // if >0: an ICMP "fragmentation needed" with this next-hop MTU is offered as a deviation (letter p)
 }
 
 func ParseRawCfg(s string) RawCfg {
@@ -173,6 +174,8 @@ func ParseRawCfg(s string) RawCfg {
 			c.SndBuf = atoi()
 		case "wgap":
 			c.WriteGapMs = atoi()
+		case "pfix":
+			c.PeerFixedEdge = atoi() != 0
 		case "rtt":
 			c.RTTms = atoi()
 		case "silent":
@@ -260,6 +263,7 @@ type rawRun struct {
 	acksDelivered          int // ACKs delivered that acknowledged new data (segments acked counted separately)
 	segsAcked              int
 	dupAcksDelivered       int
+	ackLog                 [][2]uint32 // every ACK the peer has sent (ack number, window field)
 	lastWriteAt            time.Duration
 	wroteOnce              bool
 	recover, maxSentEnd    uint32 // RFC 6582 recover point; end of the highest data transmitted
@@ -373,6 +377,7 @@ func (x *rawRun) sendAck(ack uint32, wnd int, sack []ref.SACKBlock) {
 		wnd = int(need)
 		edge = ack + uint32(wnd)<<x.peerShift()
 	}
+	x.ackLog = append(x.ackLog, [2]uint32{ack, uint32(wnd)})
 	isDup := x.haveAdv && ack == x.advAck
 	if x.episode && x.haveRecover && ref.SeqLT(x.recover, ack) {
 		// this ACK covers the recover point: the episode ends; the stack moves its marker to
@@ -908,6 +913,17 @@ func (x *rawRun) deliverMenu(d *Decoded, f *Frame) []action {
 	name := x.segName(t)
 	var m []action
 	wnd := x.cfg.PeerWnd
+	if x.cfg.PeerFixedEdge {
+		// the window left once this segment has been taken in (computed before processing: the
+		// segment is in order or not at all in the histories that use this mode)
+		got := int(x.rcvNxt - (x.sIss + 1))
+		if t != nil && t.Seq == x.rcvNxt {
+			got += len(t.Payload)
+		}
+		if wnd -= got; wnd < 0 {
+			wnd = 0
+		}
+	}
 	process := func() { x.onStackFrame(d) }
 	ackNow := func(ack uint32, w int) func() {
 		return func() { x.sendAck(ack, w, x.sackBlocks()) }
@@ -951,6 +967,17 @@ func (x *rawRun) deliverMenu(d *Decoded, f *Frame) []action {
 			ack := x.rcvNxt
 			x.pending = append(x.pending, pendingAck{due: vtime.Elapsed() + time.Duration(x.cfg.RTTms+155)*time.Millisecond, send: ackNow(ack, wnd), name: "late ack"})
 			sort.SliceStable(x.pending, func(i, j int) bool { return x.pending[i].due < x.pending[j].due })
+		}})
+	}
+	if x.dev('z') && len(x.ackLog) >= 2 {
+		// the network delivers a stale copy of the peer's first ACK after the newest one: it
+		// acknowledges less than is acknowledged already and carries the (larger) window of then
+		old := x.ackLog[0]
+		m = append(m, action{name: "peer gets " + name + ", acks all; then a stale copy of its first ACK (ack+" + fmt.Sprint(old[0]-x.sIss) + " win " + fmt.Sprint(old[1]) + ") arrives", cost: 1, do: func() {
+			process()
+			later("ack", ackNow(x.rcvNxt, wnd))
+			x.r.SendTCP(peerPort, x.sPort, x.pSndNxt, old[0], ref.ACK, uint16(old[1]), x.segOpts(nil), nil)
+			x.scanEmitted()
 		}})
 	}
 	if x.dev('k') && n > 1 {
@@ -1371,6 +1398,9 @@ func rawJobsC01(tier string) []string {
 	add(base+",mss=24,w=48,iss=4294967270,piss=2147483640,pd=2x20,b=1", 2)
 	add(base+",mss=536,w=700,pd=2x300,b=1", 2)
 	add(base+",mss=24,w=200+50,sndbuf=64,pd=20,b=1", 2) // writes larger than the free send buffer: partial acceptance
+	// window-limited sender: writes below the MSS that do not fit the room left in the peer's window
+	add(base+",mss=536,pwnd=1000,w=400+400+400+300,pd=,b=1", 2)
+	add(base+",mss=100,pwnd=150,w=60+60+60+60+200,pd=,b=1", 2)
 	if tier == "thorough" {
 		add(base+",mss=24,w=72,pd=3x20,v6=1,mtu=1280,b=1", 2)
 		add(base+",mss=24,w=48,pd=2x20,b=2", 16)
